@@ -380,10 +380,16 @@ func (s *Swarm[T]) handleTells(ctx context.Context, sess quic.Connection, srcAdd
 			return err
 		}
 		go func() {
-			lr := io.LimitReader(stream, int64(s.mtu))
+			lr := io.LimitReader(stream, int64(s.mtu)+1)
 			data, err := io.ReadAll(lr)
 			if err != nil {
 				logctx.Errorln(ctx, err)
+				return
+			}
+			if len(data) > s.mtu {
+				// larger than anything this swarm accepts: drop it rather than deliver a truncated message.
+				stream.CancelRead(0)
+				logctx.Warnln(ctx, "dropping message larger than the MTU")
 				return
 			}
 			m := p2p.Message[Addr[T]]{
